@@ -1,6 +1,6 @@
 import ScrapliModel.Lemmas.Hello
 /-!
-The scanner on rendered hello layouts (`render L ++ tail`): which pieces of the rendering are junk
+The scanner on rendered hello layouts (`renderCore L ++ tail`): which pieces of the rendering are junk
 for which search, and where the searches hit.
 -/
 namespace Scrapli.Netconf.Hello
@@ -251,6 +251,7 @@ structure Layout.OK (L : Layout) : Prop where
   decl : ∀ x, L.decl = some x → noLT x = true
   pfx : WordPfx L.pfx
   attrs : attrsOK L.attrs = true
+  pre : ∀ b ∈ L.pre, b ≠ 60
   ws0 : ∀ b ∈ L.ws0, b ≠ 60
   ws1 : ∀ b ∈ L.ws1, b ≠ 60
   ws2 : ∀ b ∈ L.ws2, b ≠ 60
@@ -261,8 +262,8 @@ structure Layout.OK (L : Layout) : Prop where
 
 theorem Layout.ok_OK (L : Layout) (h : L.ok = true) : L.OK := by
   simp only [Layout.ok, Bool.and_eq_true] at h
-  obtain ⟨⟨⟨⟨⟨⟨⟨⟨⟨hdecl, hpfx⟩, hattrs⟩, h0⟩, h1⟩, h2⟩, h3⟩, h4⟩, hcaps⟩, hsid⟩ := h
-  refine ⟨?_, ?_, hattrs, (noLT_iff _).mp h0, (noLT_iff _).mp h1, (noLT_iff _).mp h2,
+  obtain ⟨⟨⟨⟨⟨⟨⟨⟨⟨⟨hdecl, hpfx⟩, hattrs⟩, hpre⟩, h0⟩, h1⟩, h2⟩, h3⟩, h4⟩, hcaps⟩, hsid⟩ := h
+  refine ⟨?_, ?_, hattrs, (noLT_iff _).mp hpre, (noLT_iff _).mp h0, (noLT_iff _).mp h1, (noLT_iff _).mp h2,
     (noLT_iff _).mp h3, (noLT_iff _).mp h4, ?_, ?_⟩
   · intro x hx; rw [hx] at hdecl; exact hdecl
   · intro b hb; exact List.all_eq_true.mp hpfx b hb
@@ -316,16 +317,16 @@ theorem junk_capAt_sidR (p : Bytes) (sid : Option Bytes) (w : Bytes) (hp : WordP
     exact capAt_of_open_none (openTag_other true p nmSid nmCap _ hp (plain_nmSid _) (ci_sid_cap _)
       (by simp))
 
-theorem capsScan_render (L : Layout) (tail : Bytes) (h : L.OK) (ht : ∀ b ∈ tail, b ≠ 60) :
-    capsScan (render L ++ tail) = L.caps.map Prod.fst := by
+theorem capsScan_render_core (L : Layout) (tail : Bytes) (h : L.OK) (ht : ∀ b ∈ tail, b ≠ 60) :
+    capsScan (renderCore L ++ tail) = L.caps.map Prod.fst := by
   have hp := h.pfx
-  have e : render L ++ tail =
+  have e : renderCore L ++ tail =
       (declB L.decl ++ (L.ws0 ++ ((otag L.pfx nmHello ++ (L.attrs ++ [62])) ++ (L.ws1 ++
         ((otag L.pfx nmCaps ++ []) ++ L.ws2))))) ++
       (capsR L.pfx L.caps ++
         (((ctag L.pfx nmCaps ++ L.ws3) ++ (sidR L.pfx L.sid L.ws4 ++ (ctag L.pfx nmHelloGt ++ tail)))
           ++ [])) := by
-    simp [render, List.append_assoc]
+    simp [renderCore, List.append_assoc]
   rw [e, capsScan_junk, capsScan_capsR _ _ _ hp h.caps, capsScan_junk, capsScan_nil]
   · simp
   · -- after the capability list
@@ -367,28 +368,28 @@ theorem junk_sid_pre (pf : Bool) (L : Layout) (h : L.OK) (hpf : pf = false → L
                 (junk_append (junk_sid_capsR pf _ _ hp hpf h.caps)
                   (junk_ctag (junk_sidAt_slash pf) _ _ _ hp noLT_names.2.2.2.1 h.ws3)))))))
 
-theorem sidScan_render (pf : Bool) (L : Layout) (tail : Bytes) (h : L.OK)
+theorem sidScan_render_core (pf : Bool) (L : Layout) (tail : Bytes) (h : L.OK)
     (ht : ∀ b ∈ tail, b ≠ 60) (hpf : pf = false → L.pfx = []) :
-    sidScan pf (render L ++ tail) = L.sid := by
+    sidScan pf (renderCore L ++ tail) = L.sid := by
   have hp := h.pfx
   unfold sidScan
   cases hs : L.sid with
   | none =>
-    have e : render L ++ tail =
+    have e : renderCore L ++ tail =
         ((declB L.decl ++ (L.ws0 ++ ((otag L.pfx nmHello ++ (L.attrs ++ [62])) ++ (L.ws1 ++
           ((otag L.pfx nmCaps ++ []) ++ (L.ws2 ++ (capsR L.pfx L.caps ++ (ctag L.pfx nmCaps ++ L.ws3))))))))
           ++ (ctag L.pfx nmHelloGt ++ tail)) ++ [] := by
-      simp [render, hs, sidR, List.append_assoc]
+      simp [renderCore, hs, sidR, List.append_assoc]
     rw [e, firstSome_junk _ _ _ (junk_append (junk_sid_pre pf L h hpf)
       (junk_ctag (junk_sidAt_slash pf) _ _ _ hp noLT_names.2.1 ht))]
     simp [firstSome, sidAt, openTag_nil]
   | some ds =>
     obtain ⟨hne, hd⟩ := h.sid ds hs
-    have e : render L ++ tail =
+    have e : renderCore L ++ tail =
         (declB L.decl ++ (L.ws0 ++ ((otag L.pfx nmHello ++ (L.attrs ++ [62])) ++ (L.ws1 ++
           ((otag L.pfx nmCaps ++ []) ++ (L.ws2 ++ (capsR L.pfx L.caps ++ (ctag L.pfx nmCaps ++ L.ws3))))))))
           ++ (otag L.pfx nmSid ++ (ds ++ (ctag L.pfx nmSid ++ (L.ws4 ++ (ctag L.pfx nmHelloGt ++ tail))))) := by
-      simp [render, hs, sidR, List.append_assoc]
+      simp [renderCore, hs, sidR, List.append_assoc]
     rw [e, firstSome_junk _ _ _ (junk_sid_pre pf L h hpf)]
     apply firstSome_hit
     cases pf with
@@ -399,14 +400,14 @@ theorem sidScan_render (pf : Bool) (L : Layout) (tail : Bytes) (h : L.OK)
 
 /-! ## the hello element of a rendered hello -/
 
-theorem hasHelloScan_render (L : Layout) (tail : Bytes) (h : L.OK) :
-    hasHelloScan (render L ++ tail) = true := by
+theorem hasHelloScan_render_core (L : Layout) (tail : Bytes) (h : L.OK) :
+    hasHelloScan (renderCore L ++ tail) = true := by
   have hp := h.pfx
-  have e : render L ++ tail =
+  have e : renderCore L ++ tail =
       (declB L.decl ++ L.ws0) ++ (otag L.pfx nmHello ++ (L.attrs ++ 62 :: ((L.ws1 ++ (otag L.pfx nmCaps ++
         (L.ws2 ++ (capsR L.pfx L.caps ++ (ctag L.pfx nmCaps ++ (L.ws3 ++ sidR L.pfx L.sid L.ws4))))))
         ++ (ctag L.pfx nmHelloGt ++ tail)))) := by
-    simp [render, List.append_assoc]
+    simp [renderCore, List.append_assoc]
   unfold hasHelloScan
   rw [e, firstSome_junk openHelloAt _ _ (junk_append
     (junk_declB _ _ (fun x hx => junk_openHello_nonword 63 x (by decide) (by decide)
@@ -478,8 +479,8 @@ theorem noLT_qmark (x : Bytes) (hx : ∀ b ∈ x, b ≠ 60) : ∀ b ∈ (63 : UI
   · subst hb; decide
   · exact hx b hb
 
-theorem sidScan_asIs_prefixed (L : Layout) (tail : Bytes) (h : L.OK) (ht : ∀ b ∈ tail, b ≠ 60)
-    (hne : L.pfx ≠ []) : sidScan false (render L ++ tail) = none := by
+theorem sidScan_asIs_prefixed_core (L : Layout) (tail : Bytes) (h : L.OK) (ht : ∀ b ∈ tail, b ≠ 60)
+    (hne : L.pfx ≠ []) : sidScan false (renderCore L ++ tail) = none := by
   have hp := h.pfx
   have hcaps : Junk (sidAt false) (capsR L.pfx L.caps) := by
     have hc := h.caps
@@ -505,11 +506,11 @@ theorem sidScan_asIs_prefixed (L : Layout) (tail : Bytes) (h : L.OK) (ht : ∀ b
       exact junk_append (junk_sidFalse_otag _ _ _ hne hp noLT_names.2.2.2.2
           (fun b hb => isDigit_ne_lt ((h.sid ds hs).2 b hb)))
         (junk_ctag (junk_sidAt_slash false) _ _ _ hp noLT_names.2.2.2.2 h.ws4)
-  have e : render L ++ tail =
+  have e : renderCore L ++ tail =
       (declB L.decl ++ (L.ws0 ++ ((otag L.pfx nmHello ++ (L.attrs ++ [62])) ++ (L.ws1 ++
         ((otag L.pfx nmCaps ++ []) ++ (L.ws2 ++ (capsR L.pfx L.caps ++ ((ctag L.pfx nmCaps ++ L.ws3) ++
           (sidR L.pfx L.sid L.ws4 ++ (ctag L.pfx nmHelloGt ++ tail)))))))))) ++ [] := by
-    simp [render, List.append_assoc]
+    simp [renderCore, List.append_assoc]
   unfold sidScan
   rw [e, firstSome_junk]
   · simp [firstSome, sidAt, openTag_nil]
@@ -524,5 +525,38 @@ theorem sidScan_asIs_prefixed (L : Layout) (tail : Bytes) (h : L.OK) (ht : ∀ b
                   (junk_append (junk_ctag (junk_sidAt_slash false) _ _ _ hp noLT_names.2.2.2.1 h.ws3)
                     (junk_append hsid
                       (junk_ctag (junk_sidAt_slash false) _ _ _ hp noLT_names.2.1 ht)))))))))
+
+/-! ## with leading text (banner / MOTD) before the hello -/
+
+theorem capsScan_render (L : Layout) (tail : Bytes) (h : L.OK) (ht : ∀ b ∈ tail, b ≠ 60) :
+    capsScan (render L ++ tail) = L.caps.map Prod.fst := by
+  unfold render
+  rw [List.append_assoc, capsScan_junk _ _ (junk_noLT capAt_not_lt _ h.pre)]
+  exact capsScan_render_core L tail h ht
+
+theorem sidScan_render (pf : Bool) (L : Layout) (tail : Bytes) (h : L.OK)
+    (ht : ∀ b ∈ tail, b ≠ 60) (hpf : pf = false → L.pfx = []) :
+    sidScan pf (render L ++ tail) = L.sid := by
+  have := sidScan_render_core pf L tail h ht hpf
+  unfold sidScan at this ⊢
+  unfold render
+  rw [List.append_assoc, firstSome_junk _ _ _ (junk_noLT (sidAt_not_lt pf) _ h.pre)]
+  exact this
+
+theorem sidScan_asIs_prefixed (L : Layout) (tail : Bytes) (h : L.OK) (ht : ∀ b ∈ tail, b ≠ 60)
+    (hne : L.pfx ≠ []) : sidScan false (render L ++ tail) = none := by
+  have := sidScan_asIs_prefixed_core L tail h ht hne
+  unfold sidScan at this ⊢
+  unfold render
+  rw [List.append_assoc, firstSome_junk _ _ _ (junk_noLT (sidAt_not_lt false) _ h.pre)]
+  exact this
+
+theorem hasHelloScan_render (L : Layout) (tail : Bytes) (h : L.OK) :
+    hasHelloScan (render L ++ tail) = true := by
+  have := hasHelloScan_render_core L tail h
+  unfold hasHelloScan at this ⊢
+  unfold render
+  rw [List.append_assoc, firstSome_junk _ _ _ (junk_noLT openHelloAt_not_lt _ h.pre)]
+  exact this
 
 end Scrapli.Netconf.Hello
